@@ -36,7 +36,7 @@ Record mutex_method := {
   mm_defer_unlock : bool    (* second statement: defer recv.mu.Unlock() / RUnlock() *)
 }.
 
-Inductive gwkind := GwAssign | GwIndex | GwField | GwAppend | GwDelete | GwDeref | GwIncr | GwMethod.
+Inductive gwkind := GwAssign | GwIndex | GwField | GwAppend | GwDelete | GwDeref | GwIncr | GwMethod | GwAddr.
 
 Record global_write := {
   gw_pkg : string; gw_func : string; gw_var : string; gw_kind : gwkind;
@@ -48,19 +48,34 @@ Record global_write := {
 
 Inductive root_kind := RtRecv | RtParam | RtGlobal | RtOther.
 
+(* why the writing function counts as constructing the object it writes *)
+Inductive ctor_kind :=
+| CkNone
+| CkUnmarshal   (* the JSON decoding hook UnmarshalJSON / UnmarshalText of the written object *)
+| CkNamed       (* a plain function named like a constructor / reader / migration (New*, Read*, parse*, Migrate* ...) *)
+| CkHelper.     (* unexported, and every static caller chain starts in a constructor-like function *)
+
 Record field_write := {
   fw_pkg : string; fw_func : string; fw_type : string; fw_field : string;
   fw_root : root_kind;
-  fw_ctor : bool;           (* constructor-like function: UnmarshalJSON, Read*/New*/read*/new*/Migrate*/init ... *)
+  fw_ctor : ctor_kind;
   fw_under_lock : bool;     (* method that starts with recv.mu.Lock(); defer recv.mu.Unlock() *)
   fw_nil_guard : bool;      (* guarded by a nil check of the written field: lazy initialisation *)
   fw_in_once : bool
 }.
 
+(* a method (own or promoted from an embedded type) that writes fields of its receiver after construction *)
+Record mutator := {
+  mu_name : string;
+  mu_lazy : bool;           (* a lazy initialiser: every write nil-guarded, or only called from constructors and from inside
+                               `if recv.f == nil { recv.M(..) }` *)
+  mu_callers : nat          (* functions of the library that reference it *)
+}.
+
 Record shared_var := {
   sv_pkg : string; sv_var : string; sv_type : string; sv_ctor : string;
   sv_eager : bool;          (* the constructor leaves every lazily guarded field set *)
-  sv_mutators : list string
+  sv_mutators : list mutator
 }.
 
 (* ================================================================================================ *)
@@ -69,7 +84,8 @@ Record shared_var := {
 Record allow_lists := {
   al_private_types : list string;                        (* types whose instances belong to one session / one builder *)
   al_field_writes : list (string * string);              (* (package, function): reviewed writes to shared types *)
-  al_global_writes : list (string * string)              (* (package, function): reviewed writes to package-level variables *)
+  al_global_writes : list (string * string);             (* (package, function): reviewed writes to package-level variables *)
+  al_mutators : list (string * string)                   (* (type of a package-level instance, mutating method): reviewed *)
 }.
 
 Definition mem_str (s : string) (l : list string) : bool := existsb (String.eqb s) l.
@@ -104,12 +120,29 @@ Definition global_write_ok (al : allow_lists) (w : global_write) : bool :=
   (gw_init_only w && negb (gw_exported w) && negb (gw_nil_guard w)) ||
   mem_pair (gw_pkg w) (gw_func w) (al_global_writes al).
 
-Definition shared_var_ok (v : shared_var) : bool := sv_eager v.
+(* a package-level instance of a type with mutating methods: built eagerly, and every such method is a lazy initialiser
+   (a no-op on an eagerly built value), has no caller in the library, or is reviewed *)
+Definition shared_var_ok (al : allow_lists) (v : shared_var) : bool :=
+  sv_eager v &&
+  forallb (fun m => mu_lazy m || Nat.eqb (mu_callers m) 0 || mem_pair (sv_type v) (mu_name m) (al_mutators al)) (sv_mutators v).
 
 (* writes to fields of shared types: while the object is under construction, or under the owner's mutex, or the type
    is private to one session, or reviewed *)
+(* construction, structurally: never a nil-guarded (lazy) write; the decoding hook writes its own receiver (or what it
+   just obtained); a function that is a constructor by NAME only counts for objects it obtained itself (not for its
+   receiver or parameters: `func parseQuery(g *Group) { g.parsed = .. }` called at first use is not construction);
+   an unexported helper counts when every caller chain starts in a constructor-like function *)
+Definition ctor_write_ok (w : field_write) : bool :=
+  negb (fw_nil_guard w) &&
+  match fw_ctor w, fw_root w with
+  | CkUnmarshal, (RtRecv | RtOther) => true
+  | CkNamed, RtOther => true
+  | CkHelper, (RtRecv | RtParam | RtOther) => true
+  | _, _ => false
+  end.
+
 Definition field_write_ok (al : allow_lists) (w : field_write) : bool :=
-  fw_ctor w || fw_under_lock w || fw_in_once w ||
+  ctor_write_ok w || fw_under_lock w || fw_in_once w ||
   mem_str (fw_type w) (al_private_types al) ||
   mem_pair (fw_pkg w) (fw_func w) (al_field_writes al).
 
@@ -122,7 +155,7 @@ Record discipline := {
 Definition discipline_of (al : allow_lists) (ms : list mutex_method) (gws : list global_write)
   (fws : list field_write) (svs : list shared_var) : discipline :=
   {| d_locked := locked_cache ms;
-     d_shared_lazy := map (fun v => append (sv_pkg v) (append "." (sv_var v))) (filter (fun v => negb (shared_var_ok v)) svs)
+     d_shared_lazy := map (fun v => append (sv_pkg v) (append "." (sv_var v))) (filter (fun v => negb (shared_var_ok al v)) svs)
                       ++ map (fun w => append (gw_pkg w) (append "." (gw_func w))) (filter (fun w => negb (global_write_ok al w)) gws);
      d_def_writes := map (fun w => append (fw_pkg w) (append "." (append (fw_func w) (append ":" (append (fw_type w) (append "." (fw_field w)))))))
                          (filter (fun w => negb (field_write_ok al w)) fws) |}.
